@@ -494,6 +494,45 @@ func linWalk(paths []linPath, list []ast.Stmt, visit func(p linPath, st ast.Stmt
 					}
 				}
 			}
+			// x = min(a, b) / max(a, b): one path per argument that can be the result
+			if len(x.Lhs) == 1 && len(x.Rhs) == 1 && (x.Tok == token.ASSIGN || x.Tok == token.DEFINE) {
+				if call, ok := ast.Unparen(x.Rhs[0]).(*ast.CallExpr); ok && len(call.Args) == 2 {
+					if fid, ok := call.Fun.(*ast.Ident); ok && (fid.Name == "min" || fid.Name == "max") {
+						if lid, ok := ast.Unparen(x.Lhs[0]).(*ast.Ident); ok && lid.Name != "_" {
+							var out []linPath
+							okAll := true
+							for _, p := range paths {
+								p.env.cur = p.sys
+								a, ok1 := p.env.form(call.Args[0], 0)
+								b, ok2 := p.env.form(call.Args[1], 0)
+								o := p.env.info.ObjectOf(lid)
+								if !ok1 || !ok2 || o == nil {
+									okAll = false
+									break
+								}
+								lo, hi := a, b // result lo when lo <= hi (min) ; for max the roles are exchanged
+								for k := 0; k < 2; k++ {
+									np := linPath{env: p.env.clone(), sys: append(linSys{}, p.sys...)}
+									if fid.Name == "min" {
+										np.sys = append(np.sys, linLE(lo, hi))
+									} else {
+										np.sys = append(np.sys, linLE(hi, lo))
+									}
+									np.env.vars[o] = lo
+									if !np.known().infeasible() {
+										out = append(out, np)
+									}
+									lo, hi = hi, lo
+								}
+							}
+							if okAll {
+								paths = out
+								continue
+							}
+						}
+					}
+				}
+			}
 			for i := range paths {
 				p := &paths[i]
 				p.env.cur = p.sys
